@@ -35,6 +35,40 @@ QUERY_PANEL = [
 ]
 
 
+def seeded_queries(rng: random.Random, pages: list[str], n: int = 5) -> list[str]:
+    """Queries built from words that occur in generated worlds."""
+    def atom() -> str:
+        k = rng.randrange(9)
+        neg = "!" if rng.random() < 0.2 else ""
+        if k == 0:
+            return neg + "#" + rng.choice(gen.AREAS)
+        if k == 1:
+            return neg + "@" + rng.choice(gen.CONTEXTS)
+        if k == 2:
+            return neg + "%" + rng.choice(gen.PEOPLE)
+        if k == 3:
+            return neg + "+" + rng.choice(gen.PROJECTS)
+        if k == 4:
+            return neg + "'" + rng.choice(gen.PLAIN) + "'"
+        if k == 5 and pages:
+            return neg + "[[" + rng.choice(pages)[:-3] + "]]"
+        if k == 6 and pages:
+            base = rng.choice(pages)[:-3].rsplit("/", 1)[-1]
+            return neg + "f=" + rng.choice(["*" + base, base + "*", "*" + base[:1] + "*"])
+        if k == 7:
+            return rng.choice(["o", "-", "x~", "o<>", "ox~<>-"]) + (" P" + str(rng.randrange(5)) + "-" + str(rng.randrange(5, 10)) if rng.random() < 0.3 else "")
+        return rng.choice(gen.PROP_KEYS + ["hk", "fk", "bp0"]) + ":*"
+
+    out = []
+    for _ in range(n):
+        parts = [atom() for _ in range(rng.randint(1, 3))]
+        q = " ".join(parts)
+        if rng.random() < 0.3:
+            q += " | " + atom()
+        out.append("S note W " + q + " O none" + rng.choice(["", " G file", " G type"]))
+    return out
+
+
 def gen_user_step(rng: random.Random, feats: list[str], weights: Optional[dict] = None, lo: int = 1, hi: int = 3) -> dict:
     return {"op": "user", "edits": [gen.gen_edit(rng, feats, weights) for _ in range(rng.randint(lo, hi))]}
 
